@@ -652,7 +652,7 @@ func c14aRun(bt *c14aBuilt, cs c14aCase) (res c14aRes) {
 
 func c14aEval(R *vkit.Report, bt *c14aBuilt, cs c14aCase) {
 	const fn = "ObjectsToTransactionsAndMetadata"
-	rp := map[string]interface{}{"case": cs}
+	rp := map[string]interface{}{"variant": "accum", "case": cs}
 	res := c14aRun(bt, cs)
 	faultFree := cs.Fault.Kind == "none" && cs.Second != "interleaved"
 	R.Case(cs.Fault.Kind != "none" || bt.a.N > 1, "")
@@ -761,10 +761,14 @@ func TestVerif_C14_Accum(t *testing.T) {
 	groups := c14aGroups(vkit.Thorough(), R)
 
 	if rp := vkit.ReplayRequest(); rp != nil {
+		if v, _ := rp["variant"].(string); v != "accum" {
+			R.Note("replay file belongs to variant %q: nothing to do in this one", v)
+			return
+		}
 		var cs c14aCase
 		b, _ := json.Marshal(rp["case"])
 		if err := json.Unmarshal(b, &cs); err != nil || cs.Pad == 0 {
-			R.Note("replay for another variant: ignored")
+			R.Internal("replay: cannot decode case: %v", err)
 			return
 		}
 		c14aEval(R, c14aBuild(cs.Pad, cs.Shape), cs)
